@@ -1,8 +1,2436 @@
-//! C15 — not built yet.
+//! C15 — loaders are total: any file or failing asset gives Ok/Err, never crash/hang/huge allocation.
+//!
+//! Real code: `Emulator::load_snapshot` (SNA, SZX), `load_screen`, `load_tape` (+ fast-load requests,
+//! play, frames), `load_rom`, `rustzx_utils::io::GzipAsset`, `vtx::Vtx::load` (+ `Player::new/play`),
+//! and the crate-private `Tap` through hook H2, operation by operation.
+//! Every case runs in a *worker child process* (`zxharness C15 --replay-case @worker`): a panic is
+//! caught there (`catch_unwind`), a hang is a missing answer (the parent kills the worker after a
+//! timeout), an allocation request above `CAP` makes the counting allocator report the size and
+//! abort the worker. The parent compares the observed outcome class with the Lean model's prediction
+//! for the same bytes / fault script / receiving machine and lets the Lean spec judge it.
+use crate::host::*;
 use crate::util::*;
+use rustzx_core::{
+    error::{Error, IoError, RomLoadError, ScreenLoadError, SnapshotLoadError, TapeLoadError},
+    host::{LoadableAsset, RomFormat, RomSet, Screen, SeekFrom, SeekableAsset, Snapshot, Tape},
+    zx::verif_tape::{Tap, TapeImpl},
+};
+use std::alloc::{GlobalAlloc, Layout, System};
+use std::collections::VecDeque;
+use std::io::{BufRead, BufReader, Read, Seek, Write};
+use std::panic::{catch_unwind, AssertUnwindSafe};
+use std::process::{Child, ChildStdin, Command, Stdio};
+use std::sync::atomic::{AtomicBool, AtomicUsize, Ordering};
+use std::sync::mpsc::{channel, Receiver};
+use std::sync::Mutex;
+use std::time::Duration;
 
-pub fn run(_o: &Opts) -> Report {
+// ------------------------------------------------------------------------------------------------
+// counting allocator (whole binary; a relaxed flag test when not armed)
+
+pub struct CountingAlloc;
+static ARMED: AtomicBool = AtomicBool::new(false);
+static MAX_REQ: AtomicUsize = AtomicUsize::new(0);
+/// requests above this are never served: the worker reports them and aborts
+const CAP: usize = 1 << 30;
+
+fn report_huge(n: usize) -> ! {
+    // no allocation here: digits into a stack buffer, raw write to fd 1
+    let mut buf = [0u8; 40];
+    let mut i = buf.len();
+    buf[i - 1] = b'\n';
+    i -= 1;
+    let mut v = n;
+    loop {
+        i -= 1;
+        buf[i] = b'0' + (v % 10) as u8;
+        v /= 10;
+        if v == 0 {
+            break;
+        }
+    }
+    for (k, c) in b"huge ".iter().enumerate() {
+        buf[i - 5 + k] = *c;
+    }
+    i -= 5;
+    use std::os::unix::io::FromRawFd;
+    let mut f = std::mem::ManuallyDrop::new(unsafe { std::fs::File::from_raw_fd(1) });
+    let _ = f.write_all(&buf[i..]);
+    std::process::abort();
+}
+
+#[inline]
+fn note(n: usize) {
+    if ARMED.load(Ordering::Relaxed) {
+        MAX_REQ.fetch_max(n, Ordering::Relaxed);
+        if n > CAP {
+            ARMED.store(false, Ordering::Relaxed);
+            report_huge(n);
+        }
+    }
+}
+
+unsafe impl GlobalAlloc for CountingAlloc {
+    unsafe fn alloc(&self, l: Layout) -> *mut u8 {
+        note(l.size());
+        System.alloc(l)
+    }
+    unsafe fn dealloc(&self, p: *mut u8, l: Layout) {
+        System.dealloc(p, l)
+    }
+    unsafe fn alloc_zeroed(&self, l: Layout) -> *mut u8 {
+        note(l.size());
+        System.alloc_zeroed(l)
+    }
+    unsafe fn realloc(&self, p: *mut u8, l: Layout, n: usize) -> *mut u8 {
+        note(n);
+        System.realloc(p, l, n)
+    }
+}
+
+#[global_allocator]
+static GLOBAL: CountingAlloc = CountingAlloc;
+
+fn arm() {
+    MAX_REQ.store(0, Ordering::Relaxed);
+    ARMED.store(true, Ordering::Relaxed);
+}
+fn disarm() -> usize {
+    ARMED.store(false, Ordering::Relaxed);
+    MAX_REQ.load(Ordering::Relaxed)
+}
+
+static LAST_PANIC: Mutex<Option<String>> = Mutex::new(None);
+/// watchdog kills so far (parent side): a tree that hangs everywhere must not cost hours
+static HANGS: AtomicUsize = AtomicUsize::new(0);
+const HANGS_SHORT_TIMEOUT: usize = 36;
+const HANGS_GIVE_UP: usize = 240;
+
+fn take_panic() -> String {
+    LAST_PANIC
+        .lock()
+        .ok()
+        .and_then(|mut g| g.take())
+        .unwrap_or_else(|| "unknown".into())
+}
+
+/// panic message without its numbers, with the source file (no line): stable across patches
+fn canon_panic(msg: &str) -> String {
+    let mut out = String::new();
+    let mut in_num = false;
+    for c in msg.chars() {
+        if c.is_ascii_digit() {
+            if !in_num {
+                out.push('#');
+            }
+            in_num = true;
+        } else {
+            in_num = false;
+            out.push(if c.is_whitespace() { '_' } else { c });
+        }
+    }
+    out
+}
+
+// ------------------------------------------------------------------------------------------------
+// cases
+
+#[derive(Clone, Debug, PartialEq)]
+pub enum Seg {
+    H(Vec<u8>),
+    Z(usize, u8),
+}
+
+fn segs_text(segs: &[Seg]) -> String {
+    if segs.is_empty() {
+        return "-".into();
+    }
+    segs.iter()
+        .map(|s| match s {
+            Seg::H(b) => format!("h{}", hex(b)),
+            Seg::Z(n, b) => format!("z{:x}x{:02x}", n, b),
+        })
+        .collect::<Vec<_>>()
+        .join(",")
+}
+
+fn parse_segs(s: &str) -> Vec<Seg> {
+    let mut v = vec![];
+    for t in s.split(',') {
+        if let Some(h) = t.strip_prefix('h') {
+            v.push(Seg::H(unhex(h)));
+        } else if let Some(z) = t.strip_prefix('z') {
+            let mut it = z.split('x');
+            let n = usize::from_str_radix(it.next().unwrap_or("0"), 16).unwrap_or(0);
+            let b = u8::from_str_radix(it.next().unwrap_or("0"), 16).unwrap_or(0);
+            v.push(Seg::Z(n, b));
+        }
+    }
+    v
+}
+
+fn segs_bytes(segs: &[Seg]) -> Vec<u8> {
+    let mut v = vec![];
+    for s in segs {
+        match s {
+            Seg::H(b) => v.extend_from_slice(b),
+            Seg::Z(n, b) => v.extend(std::iter::repeat(*b).take(*n)),
+        }
+    }
+    v
+}
+
+fn segs_len(segs: &[Seg]) -> usize {
+    segs.iter()
+        .map(|s| match s {
+            Seg::H(b) => b.len(),
+            Seg::Z(n, _) => *n,
+        })
+        .sum()
+}
+
+#[derive(Clone, Copy, Debug, PartialEq, Default)]
+pub struct Script {
+    pub chunk: usize,
+    pub fail_read: Option<usize>,
+    pub fail_seek: Option<usize>,
+    pub eof_zero: bool,
+}
+
+impl Script {
+    fn text(&self) -> String {
+        let o = |x: Option<usize>| x.map(|v| format!("{:x}", v)).unwrap_or_else(|| "-".into());
+        format!(
+            "{:x} {} {} {}",
+            self.chunk,
+            o(self.fail_read),
+            o(self.fail_seek),
+            if self.eof_zero { 1 } else { 0 }
+        )
+    }
+    fn is_plain(&self) -> bool {
+        self.chunk == 0 && self.fail_read.is_none() && self.fail_seek.is_none()
+    }
+    fn class(&self) -> &'static str {
+        match (self.chunk != 0, self.fail_read.is_some(), self.fail_seek.is_some()) {
+            (false, false, false) => "plain",
+            (true, false, false) => "short-reads",
+            (_, true, false) => "read-failure",
+            (_, false, true) => "seek-failure",
+            _ => "read+seek-failure",
+        }
+    }
+    fn asset(&self, data: Vec<u8>) -> VAsset {
+        VAsset {
+            data,
+            max_chunk: self.chunk,
+            fail_read_at: self.fail_read,
+            fail_seek_at: self.fail_seek,
+            eof_zero: self.eof_zero,
+            ..Default::default()
+        }
+    }
+}
+
+/// One case = one line of text (also the replay format):
+/// `<loader> <m128> <locked> <bank> <ay> <chunk> <failread|-> <failseek|-> <eofzero> <bytes> <extra>`
+/// loader: sna szx scr rom tap tapc vtx gz:sna gz:szx gz:scr gz:tap
+/// extra:  szx = inflate table | tap = fast-load requests `f<f>:<a>:<de>:<ix>;...` | tapc = ops | rom = `|`-separated
+///         second.. page assets | else `-`
+#[derive(Clone, Debug, PartialEq)]
+pub struct Case {
+    pub loader: String,
+    pub m128: bool,
+    pub locked: bool,
+    pub bank: u8,
+    pub ay: bool,
+    pub sc: Script,
+    pub segs: Vec<Seg>,
+    pub extra: String,
+}
+
+impl Case {
+    fn new(loader: &str) -> Case {
+        Case {
+            loader: loader.into(),
+            m128: false,
+            locked: true,
+            bank: 2,
+            ay: false,
+            sc: Script::default(),
+            segs: vec![],
+            extra: "-".into(),
+        }
+    }
+    fn machine(mut self, m128: bool, locked: bool, bank: u8) -> Case {
+        self.m128 = m128;
+        if m128 {
+            self.locked = locked;
+            self.bank = bank & 7;
+        } else {
+            self.locked = true;
+            self.bank = 2;
+        }
+        self
+    }
+    fn recv_text(&self) -> String {
+        let b = |x: bool| if x { 1 } else { 0 };
+        format!("{} {} {:x} {}", b(self.m128), b(self.locked), self.bank, b(self.ay))
+    }
+    fn text(&self) -> String {
+        format!(
+            "{} {} {} {} {}",
+            self.loader,
+            self.recv_text(),
+            self.sc.text(),
+            segs_text(&self.segs),
+            if self.extra.is_empty() { "-" } else { &self.extra }
+        )
+    }
+    fn parse(s: &str) -> Option<Case> {
+        let t: Vec<&str> = s.split_whitespace().collect();
+        if t.len() < 10 {
+            return None;
+        }
+        let o = |x: &str| usize::from_str_radix(x, 16).ok();
+        Some(Case {
+            loader: t[0].into(),
+            m128: t[1] == "1",
+            locked: t[2] == "1",
+            bank: u8::from_str_radix(t[3], 16).unwrap_or(0),
+            ay: t[4] == "1",
+            sc: Script {
+                chunk: o(t[5]).unwrap_or(0),
+                fail_read: o(t[6]),
+                fail_seek: o(t[7]),
+                eof_zero: t[8] == "1",
+            },
+            segs: parse_segs(t[9]),
+            extra: t.get(10).map(|x| x.to_string()).unwrap_or_else(|| "-".into()),
+        })
+    }
+    fn len(&self) -> usize {
+        segs_len(&self.segs)
+    }
+}
+
+// ------------------------------------------------------------------------------------------------
+// real code (runs inside the worker process)
+
+fn io_name(e: &IoError) -> &'static str {
+    match e {
+        IoError::UnexpectedEof => "io.eof",
+        IoError::WriteZero => "io.writeZero",
+        IoError::SeekBeforeStart => "io.seekBeforeStart",
+        IoError::HostAssetImplFailed => "io.hostFailed",
+    }
+}
+
+fn err_name(e: &Error) -> String {
+    match e {
+        Error::AssetRead(io) => io_name(io).into(),
+        Error::RomLoad(RomLoadError::MoreAssetsRequired) => "moreAssetsRequired".into(),
+        Error::TapeLoad(TapeLoadError::InvalidTapFile) => "invalidTap".into(),
+        Error::ScreenLoad(ScreenLoadError::InvalidScrFile) => "invalidScr".into(),
+        Error::ScreenLoad(ScreenLoadError::MachineNotSupported) => "scrMachineNotSupported".into(),
+        Error::SnapshotLoad(SnapshotLoadError::InvalidSNAFile) => "invalidSna".into(),
+        Error::SnapshotLoad(SnapshotLoadError::InvalidSZXFile) => "invalidSzx".into(),
+        Error::SnapshotLoad(SnapshotLoadError::MachineNotSupported) => "machineNotSupported".into(),
+        Error::SnapshotLoad(SnapshotLoadError::ZlibNotSupported) => "zlibNotSupported".into(),
+        other => canon_panic(&format!("{:?}", other)),
+    }
+}
+
+/// observation of one guarded call: `ok` | `err <kind>` | `panic <canonical message>`
+fn guarded<T>(f: impl FnOnce() -> Result<T, String>) -> (String, Option<T>) {
+    match catch_unwind(AssertUnwindSafe(f)) {
+        Ok(Ok(v)) => ("ok -".into(), Some(v)),
+        Ok(Err(k)) => (format!("err {}", k), None),
+        Err(_) => (format!("panic {}", take_panic()), None),
+    }
+}
+
+fn mk_emu(c: &Case, fastload: bool) -> Emu {
+    let mut cfg = Cfg::new(c.m128);
+    cfg.ay = c.ay;
+    cfg.sound = c.ay;
+    cfg.fastload = fastload;
+    let mut e = emu(&cfg);
+    if c.m128 {
+        e.verif_write_io(0x7FFD, (c.bank & 7) | if c.locked { 0x20 } else { 0 });
+    }
+    e
+}
+
+/// N further frames after the load; `ok` | `err:<kind>` | `panic:<msg>`
+fn post_frames(e: &mut Emu, n: usize) -> String {
+    let r = catch_unwind(AssertUnwindSafe(|| {
+        for _ in 0..n {
+            if let Err(err) = e.emulate_frames(Duration::from_secs(1)) {
+                return Err(err_name(&err));
+            }
+            while e.next_audio_sample().is_some() {}
+        }
+        Ok(())
+    }));
+    match r {
+        Ok(Ok(())) => "ok".into(),
+        Ok(Err(k)) => format!("err:{}", k),
+        Err(_) => format!("panic:{}", take_panic()),
+    }
+}
+
+struct Roms(VecDeque<VAsset>);
+impl RomSet for Roms {
+    type Asset = VAsset;
+    fn format(&self) -> RomFormat {
+        RomFormat::Binary16KPages
+    }
+    fn next_asset(&mut self) -> Option<VAsset> {
+        self.0.pop_front()
+    }
+}
+
+/// `std::io::Read + Seek` with the same fault script (for `Vtx::load`)
+struct StdReader(VAsset);
+impl Read for StdReader {
+    fn read(&mut self, buf: &mut [u8]) -> std::io::Result<usize> {
+        LoadableAsset::read(&mut self.0, buf)
+            .map_err(|e| std::io::Error::new(std::io::ErrorKind::Other, io_name(&e)))
+    }
+}
+impl Seek for StdReader {
+    fn seek(&mut self, pos: std::io::SeekFrom) -> std::io::Result<u64> {
+        let p = match pos {
+            std::io::SeekFrom::Start(n) => SeekFrom::Start(n as usize),
+            std::io::SeekFrom::End(n) => SeekFrom::End(n as isize),
+            std::io::SeekFrom::Current(n) => SeekFrom::Current(n as isize),
+        };
+        SeekableAsset::seek(&mut self.0, p)
+            .map(|v| v as u64)
+            .map_err(|e| std::io::Error::new(std::io::ErrorKind::Other, io_name(&e)))
+    }
+}
+
+#[derive(Clone, Copy)]
+struct FlReq {
+    f: u8,
+    a: u8,
+    de: u16,
+    ix: u16,
+}
+
+fn parse_fl(s: &str) -> Vec<FlReq> {
+    s.split(';')
+        .filter_map(|t| {
+            let t = t.strip_prefix('f')?;
+            let p: Vec<&str> = t.split(':').collect();
+            if p.len() != 4 {
+                return None;
+            }
+            Some(FlReq {
+                f: u8::from_str_radix(p[0], 16).ok()?,
+                a: u8::from_str_radix(p[1], 16).ok()?,
+                de: u16::from_str_radix(p[2], 16).ok()?,
+                ix: u16::from_str_radix(p[3], 16).ok()?,
+            })
+        })
+        .collect()
+}
+
+/// component level: one operation on the crate-private `Tap` (hook H2)
+fn tap_op(t: &mut Tap<VAsset>, op: &str) -> String {
+    let r = catch_unwind(AssertUnwindSafe(|| -> Result<String, String> {
+        let e = |x: Error| err_name(&x);
+        Ok(match op.as_bytes().first() {
+            Some(b'p') => {
+                t.play();
+                "ok".into()
+            }
+            Some(b's') => {
+                t.stop();
+                "ok".into()
+            }
+            Some(b'r') => {
+                t.rewind().map_err(e)?;
+                "ok".into()
+            }
+            Some(b'c') => {
+                let n = usize::from_str_radix(&op[1..], 16).unwrap_or(0);
+                t.process_clocks(n).map_err(e)?;
+                "ok".into()
+            }
+            Some(b'k') => {
+                // k<count>:<clocks> — repeated process_clocks, first failure wins
+                let mut it = op[1..].split(':');
+                let cnt = usize::from_str_radix(it.next().unwrap_or("0"), 16).unwrap_or(0);
+                let n = usize::from_str_radix(it.next().unwrap_or("0"), 16).unwrap_or(0);
+                for _ in 0..cnt {
+                    t.process_clocks(n).map_err(e)?;
+                }
+                "ok".into()
+            }
+            Some(b'b') => format!("ok:{}", if t.next_block().map_err(e)? { 1 } else { 0 }),
+            Some(b'y') => match t.next_block_byte().map_err(e)? {
+                Some(b) => format!("ok:{:02x}", b),
+                None => "ok:-".into(),
+            },
+            _ => "bad-op".into(),
+        })
+    }));
+    match r {
+        Ok(Ok(s)) => s,
+        Ok(Err(k)) => format!("err:{}", k),
+        Err(_) => format!("panic:{}", take_panic()),
+    }
+}
+
+/// Runs one case on the real code. Answer: `<class> <detail> <maxalloc hex> <post> <extra>`
+fn run_real(c: &Case) -> String {
+    let bytes = segs_bytes(&c.segs);
+    let loader = c.loader.as_str();
+    let (gz, inner) = match loader.strip_prefix("gz:") {
+        Some(i) => (true, i),
+        None => (false, loader),
+    };
+    let mut extra = String::from("-");
+    // gzip wrapping: the decompressed bytes go back to the parent (they are the model's input)
+    let (data, gz_alloc) = if gz {
+        arm();
+        let r = catch_unwind(AssertUnwindSafe(|| {
+            rustzx_utils::io::GzipAsset::new(&bytes[..]).map(|a| a.into_vec())
+        }));
+        let ma = disarm();
+        match r {
+            Ok(Ok(v)) => {
+                extra = format!("gz={}", if v.is_empty() { "-".into() } else { hex(&v) });
+                (v, ma)
+            }
+            Ok(Err(_)) => return format!("err gzip {:x} ok gz=err", ma),
+            Err(_) => return format!("panic {} {:x} ok gz=panic", take_panic(), ma),
+        }
+    } else {
+        (bytes, 0)
+    };
+    match inner {
+        "sna" | "szx" | "scr" => {
+            let mut e = mk_emu(c, false);
+            arm();
+            let (obs, _) = guarded(|| {
+                // through the real GzipAsset where the case is gzip-wrapped
+                if gz {
+                    let raw = segs_bytes(&c.segs);
+                    let a = rustzx_utils::io::GzipAsset::new(&raw[..]).map_err(|_| "gzip".to_string())?;
+                    match inner {
+                        "sna" => e.load_snapshot(Snapshot::Sna(a)),
+                        "szx" => e.load_snapshot(Snapshot::Szx(a)),
+                        _ => e.load_screen(Screen::Scr(a)),
+                    }
+                    .map_err(|x| err_name(&x))
+                } else {
+                    let a = c.sc.asset(data);
+                    match inner {
+                        "sna" => e.load_snapshot(Snapshot::Sna(a)),
+                        "szx" => e.load_snapshot(Snapshot::Szx(a)),
+                        _ => e.load_screen(Screen::Scr(a)),
+                    }
+                    .map_err(|x| err_name(&x))
+                }
+            });
+            let ma = disarm().max(gz_alloc);
+            let post = post_frames(&mut e, 2);
+            format!("{} {:x} {} {}", obs, ma, post, extra)
+        }
+        "rom" => {
+            let mut e = mk_emu(c, false);
+            let mut assets = VecDeque::new();
+            if !(c.segs.is_empty() && c.extra == "none") {
+                assets.push_back(c.sc.asset(data));
+                if c.extra != "-" && c.extra != "none" {
+                    for part in c.extra.split('|') {
+                        assets.push_back(c.sc.asset(segs_bytes(&parse_segs(part))));
+                    }
+                }
+            }
+            arm();
+            let (obs, _) = guarded(|| e.load_rom(Roms(assets)).map_err(|x| err_name(&x)));
+            let ma = disarm();
+            let post = post_frames(&mut e, 2);
+            format!("{} {:x} {} -", obs, ma, post)
+        }
+        "tap" => {
+            // emulator level: load, fast-load requests, then play and run frames
+            let mut e = mk_emu(c, true);
+            arm();
+            let (obs, _) = guarded(|| e.load_tape(Tape::Tap(c.sc.asset(data))).map_err(|x| err_name(&x)));
+            let mut fl_out = vec![];
+            let mut first_bad = obs.clone();
+            if obs.starts_with("ok") {
+                for rq in parse_fl(&c.extra) {
+                    let (o, v) = guarded(|| {
+                        {
+                            let cpu = e.verif_cpu();
+                            cpu.regs.set_af(((rq.a as u16) << 8) | rq.f as u16);
+                            cpu.regs.swap_af_alt();
+                            cpu.regs.set_ix(rq.ix);
+                            cpu.regs.set_de(rq.de);
+                            cpu.regs.set_sp(0xFF00);
+                            // pc_callback sees the PC *after* the instruction: NOP at 0x056A, then 0x056B = LD-BREAK
+                            cpu.regs.set_pc(0x056A);
+                            cpu.regs.set_iff1(false);
+                            cpu.halted = false;
+                        }
+                        e.set_debug_interface(Dbg { break_all: true, ..Default::default() });
+                        let r = e.emulate_frames(Duration::from_secs(1)).map_err(|x| err_name(&x));
+                        if let Some(d) = e.debug_interface() {
+                            d.break_all = false;
+                        }
+                        r?;
+                        let cpu = e.verif_cpu();
+                        Ok((cpu.regs.get_de(), cpu.regs.get_ix()))
+                    });
+                    match v {
+                        Some((de, ix)) => fl_out.push(format!("ok:{:x}:{:x}", de, ix)),
+                        None => {
+                            fl_out.push(o.replacen(' ', ":", 1));
+                            if first_bad.starts_with("ok") {
+                                first_bad = o;
+                            }
+                        }
+                    }
+                }
+            }
+            let ma = disarm();
+            e.play_tape();
+            let post = post_frames(&mut e, 3);
+            format!(
+                "{} {:x} {} fl={}",
+                first_bad,
+                ma,
+                post,
+                if fl_out.is_empty() { "-".into() } else { fl_out.join(",") }
+            )
+        }
+        "tapc" => {
+            arm();
+            let made = catch_unwind(AssertUnwindSafe(|| Tap::from_asset(c.sc.asset(data))));
+            let mut outs = vec![];
+            let mut worst = String::from("ok -");
+            if let Ok(Ok(mut t)) = made {
+                for op in c.extra.split(';') {
+                    let o = tap_op(&mut t, op);
+                    if o.starts_with("panic") && !worst.starts_with("panic") {
+                        worst = o.replacen(':', " ", 1);
+                    }
+                    outs.push(o);
+                }
+            } else {
+                worst = "panic from_asset".into();
+            }
+            let ma = disarm();
+            format!("{} {:x} ok ops={}", worst, ma, outs.join(","))
+        }
+        "vtx" => {
+            arm();
+            let (obs, v) = guarded(|| {
+                vtx::Vtx::load(StdReader(c.sc.asset(data))).map_err(|e| match e {
+                    vtx::VtxError::Io(_) => "vtxIo".to_string(),
+                    vtx::VtxError::InvalidHeader { .. } => "vtxHeader".to_string(),
+                    vtx::VtxError::DecompressFailure => "vtxDecompress".to_string(),
+                })
+            });
+            let mut obs = obs;
+            let mut post = String::from("ok");
+            if let Some(v) = v {
+                let frames = v.frame_data.len() / 14;
+                let r = catch_unwind(AssertUnwindSafe(|| vtx::player::PrecisePlayer::new(v, 44100, true)));
+                match r {
+                    Err(_) => obs = format!("panic {}", take_panic()),
+                    Ok(mut p) => {
+                        let r2 = catch_unwind(AssertUnwindSafe(|| {
+                            let mut buf = [0i16; 4096];
+                            p.play(&mut buf)
+                        }));
+                        if r2.is_err() {
+                            post = format!("panic:{}", take_panic());
+                        }
+                    }
+                }
+                extra = format!("frames={:x}", frames);
+            }
+            let ma = disarm();
+            format!("{} {:x} {} {}", obs, ma, post, extra)
+        }
+        _ => "bad-case - 0 ok -".into(),
+    }
+}
+
+/// worker process: one case per stdin line, one answer per stdout line
+fn worker_main() -> ! {
+    std::panic::set_hook(Box::new(|info| {
+        let msg = if let Some(s) = info.payload().downcast_ref::<&str>() {
+            s.to_string()
+        } else if let Some(s) = info.payload().downcast_ref::<String>() {
+            s.clone()
+        } else {
+            "?".to_string()
+        };
+        let file = info
+            .location()
+            .map(|l| l.file().rsplit('/').next().unwrap_or("").to_string())
+            .unwrap_or_default();
+        if std::env::var("ZXH_PANIC_LOG").is_ok() {
+            eprintln!("worker panic: {} at {:?}", msg, info.location());
+        }
+        if let Ok(mut g) = LAST_PANIC.lock() {
+            *g = Some(canon_panic(&format!("{}@{}", msg, file)));
+        }
+    }));
+    let stdin = std::io::stdin();
+    let mut out = std::io::stdout();
+    for line in stdin.lock().lines() {
+        let line = match line {
+            Ok(l) => l,
+            Err(_) => break,
+        };
+        let ans = match Case::parse(&line) {
+            Some(c) => run_real(&c),
+            None => "bad-case - 0 ok -".into(),
+        };
+        let _ = writeln!(out, "{}", ans);
+        let _ = out.flush();
+    }
+    std::process::exit(0);
+}
+
+// ------------------------------------------------------------------------------------------------
+// parent side: worker handle, model requests, adjudication
+
+#[derive(Clone, Debug, Default)]
+pub struct Obs {
+    /// ok | err | panic | hang | huge | crash
+    pub class: String,
+    pub detail: String,
+    pub alloc: usize,
+    pub post: String,
+    pub extra: String,
+}
+
+struct Worker {
+    child: Child,
+    stdin: ChildStdin,
+    rx: Receiver<String>,
+    spawned: u64,
+    killed: u64,
+}
+
+fn spawn_worker() -> (Child, ChildStdin, Receiver<String>) {
+    let exe = std::env::current_exe().expect("current_exe");
+    let mut child = Command::new(exe)
+        .args(["C15", "--replay-case", "@worker"])
+        .stdin(Stdio::piped())
+        .stdout(Stdio::piped())
+        .stderr(Stdio::null())
+        .spawn()
+        .expect("cannot start the C15 worker process");
+    let stdin = child.stdin.take().unwrap();
+    let stdout = child.stdout.take().unwrap();
+    let (tx, rx) = channel();
+    std::thread::spawn(move || {
+        let rd = BufReader::with_capacity(1 << 20, stdout);
+        for l in rd.lines() {
+            match l {
+                Ok(l) => {
+                    if tx.send(l).is_err() {
+                        break;
+                    }
+                }
+                Err(_) => break,
+            }
+        }
+    });
+    (child, stdin, rx)
+}
+
+impl Worker {
+    fn new() -> Worker {
+        let (child, stdin, rx) = spawn_worker();
+        Worker { child, stdin, rx, spawned: 1, killed: 0 }
+    }
+    fn respawn(&mut self) {
+        let _ = self.child.kill();
+        let _ = self.child.wait();
+        let (child, stdin, rx) = spawn_worker();
+        self.child = child;
+        self.stdin = stdin;
+        self.rx = rx;
+        self.spawned += 1;
+    }
+    fn run(&mut self, c: &Case, timeout: Duration) -> Obs {
+        let line = c.text();
+        let sent = self
+            .stdin
+            .write_all(line.as_bytes())
+            .and_then(|_| self.stdin.write_all(b"\n"))
+            .and_then(|_| self.stdin.flush());
+        if sent.is_err() {
+            self.respawn();
+            return Obs { class: "crash".into(), detail: "worker-pipe".into(), post: "ok".into(), ..Default::default() };
+        }
+        match self.rx.recv_timeout(timeout) {
+            Ok(l) => {
+                if let Some(n) = l.strip_prefix("huge ") {
+                    let n = n.trim().parse::<usize>().unwrap_or(usize::MAX);
+                    self.respawn();
+                    return Obs { class: "huge".into(), detail: format!("{}", n), alloc: n, post: "ok".into(), extra: "-".into() };
+                }
+                let t: Vec<&str> = l.splitn(5, ' ').collect();
+                if t.len() < 5 {
+                    return Obs { class: "crash".into(), detail: canon_panic(&l), post: "ok".into(), ..Default::default() };
+                }
+                Obs {
+                    class: t[0].into(),
+                    detail: t[1].into(),
+                    alloc: usize::from_str_radix(t[2], 16).unwrap_or(0),
+                    post: t[3].into(),
+                    extra: t[4].into(),
+                }
+            }
+            Err(std::sync::mpsc::RecvTimeoutError::Timeout) => {
+                self.killed += 1;
+                HANGS.fetch_add(1, Ordering::Relaxed);
+                self.respawn();
+                Obs { class: "hang".into(), detail: format!("no answer within {} ms", timeout.as_millis()), post: "ok".into(), extra: "-".into(), alloc: 0 }
+            }
+            Err(std::sync::mpsc::RecvTimeoutError::Disconnected) => {
+                let status = self.child.wait().map(|s| format!("{}", s)).unwrap_or_default();
+                self.respawn();
+                Obs { class: "crash".into(), detail: canon_panic(&status), post: "ok".into(), extra: "-".into(), alloc: 0 }
+            }
+        }
+    }
+}
+
+impl Drop for Worker {
+    fn drop(&mut self) {
+        let _ = self.child.kill();
+        let _ = self.child.wait();
+    }
+}
+
+/// the failure sites of the model, in the order of `Site.all` (bit i of the fix mask)
+const SITES: [&str; 28] = [
+    "snaIm", "snaPage", "szxIdUtf8", "szxAlloc", "szxCrtrShort", "szxCrtrUtf8", "szxZ80rShort", "szxZ80rIm",
+    "szxSpcrShort", "szxSpcrBorder", "szxAyShort", "szxKeybShort", "szxAmxmShort", "szxRampShort",
+    "szxRampPage", "szxRampData", "szxRampInflated", "tapArith", "tapIndex", "tapPilot", "vtxSpin",
+    "vtxScan", "vtxArith", "vtxStrings", "vtxAlloc", "vtxPlayerFreq", "vtxLha", "snaRev",
+];
+
+fn site_bit(name: &str) -> u32 {
+    SITES.iter().position(|s| *s == name).map(|i| 1u32 << i).unwrap_or(0)
+}
+
+#[derive(Clone, Debug, Default)]
+pub struct Pred {
+    pub class: String,
+    pub detail: String,
+    pub alloc: usize,
+    pub steps: usize,
+    pub ops: Vec<String>,
+}
+
+fn inner_loader(c: &Case) -> &str {
+    c.loader.strip_prefix("gz:").unwrap_or(&c.loader)
+}
+
+const VTX_CHUNK: usize = 65536;
+
+/// the request line for the Lean driver; `obs` supplies what only the real run can tell
+/// (gzip output, whether the LH5 decoder delivered)
+fn model_request(c: &Case, fix: u32, obs: &Obs) -> Option<String> {
+    let gz = c.loader.starts_with("gz:");
+    let (script, bytes) = if gz {
+        let h = obs.extra.strip_prefix("gz=")?;
+        if h == "err" || h == "panic" {
+            return None;
+        }
+        ("0 - - 0".to_string(), if h == "-" { "-".to_string() } else { format!("h{}", h) })
+    } else {
+        (c.sc.text(), segs_text(&c.segs))
+    };
+    Some(match inner_loader(c) {
+        "sna" => format!("sna {:x} {} {} {}", fix, c.recv_text(), script, bytes),
+        "scr" => format!("scr {:x} {} {} {}", fix, c.recv_text(), script, bytes),
+        "szx" => format!("szx {:x} {} {} {} {}", fix, c.recv_text(), script, bytes, c.extra),
+        "rom" => {
+            let mut s = format!("rom {}", if c.m128 { 1 } else { 0 });
+            if !(c.segs.is_empty() && c.extra == "none") {
+                s.push_str(&format!(" {} {}", script, bytes));
+                if c.extra != "-" && c.extra != "none" {
+                    for part in c.extra.split('|') {
+                        s.push_str(&format!(" {} {}", script, part));
+                    }
+                }
+            }
+            s
+        }
+        "tap" => {
+            let ops = if c.extra == "-" || c.extra.is_empty() { "s".to_string() } else { c.extra.clone() };
+            format!("tap {} {} {}", script, bytes, ops)
+        }
+        "tapc" => format!("tap {} {} {}", script, bytes, c.extra),
+        "vtx" => {
+            // the decoder is a parameter of the model: did it deliver, fail, or panic (delharc frames)?
+            let produced = if obs.class == "panic" && obs.detail.contains("@lhv") {
+                "p".to_string()
+            } else if obs.detail == "vtxDecompress" {
+                "0".to_string()
+            } else {
+                "ffffffff".to_string()
+            };
+            format!("vtx {:x} {} {} {}", fix, script, bytes, produced)
+        }
+        _ => return None,
+    })
+}
+
+fn parse_pred(c: &Case, ans: &str) -> Pred {
+    match inner_loader(c) {
+        "tap" | "tapc" => {
+            let ops: Vec<String> = ans.split(',').map(|s| s.to_string()).collect();
+            // emulator level: the first failing fast-load request decides; component level: Err results
+            // are ordinary answers of single operations, only panic/hang leave the contract
+            let emu_level = inner_loader(c) == "tap";
+            let bad = ops
+                .iter()
+                .find(|o| o.starts_with("panic") || o.starts_with("hang") || (emu_level && o.starts_with("err")));
+            let (class, detail) = match bad {
+                Some(b) => {
+                    let mut it = b.splitn(2, ':');
+                    (it.next().unwrap_or("").to_string(), it.next().unwrap_or("-").to_string())
+                }
+                None => ("ok".to_string(), "-".to_string()),
+            };
+            Pred { class, detail, alloc: 0, steps: 0, ops }
+        }
+        _ => {
+            let t: Vec<&str> = ans.split(' ').collect();
+            if t.len() < 4 {
+                return Pred { class: "bad".into(), detail: ans.into(), ..Default::default() };
+            }
+            Pred {
+                class: t[0].into(),
+                detail: t[1].into(),
+                alloc: usize::from_str_radix(t[2], 16).unwrap_or(0),
+                steps: usize::from_str_radix(t[3], 16).unwrap_or(0),
+                ops: vec![],
+            }
+        }
+    }
+}
+
+#[derive(Clone, Debug)]
+pub struct Finding {
+    pub kind: Kind,
+    pub key: String,
+    pub what: String,
+    pub implementation: String,
+    pub expected: String,
+}
+
+struct Ctx {
+    worker: Worker,
+    model: Model,
+    fix: u32,
+    timeout: Duration,
+    vtx_timeout: Duration,
+}
+
+struct Eval {
+    obs: Obs,
+    pred: Pred,
+    finding: Option<Finding>,
+}
+
+fn vtx_claim(bytes: &[u8]) -> u64 {
+    if bytes.len() >= 16 {
+        u32::from_le_bytes([bytes[12], bytes[13], bytes[14], bytes[15]]) as u64
+    } else {
+        0
+    }
+}
+
+impl Ctx {
+    fn timeout_for(&self, c: &Case) -> Duration {
+        if HANGS.load(Ordering::Relaxed) > HANGS_SHORT_TIMEOUT {
+            return Duration::from_millis(300);
+        }
+        if inner_loader(c) == "vtx" {
+            self.vtx_timeout
+        } else {
+            self.timeout
+        }
+    }
+
+    /// does the LH5 tail of this VTX file deliver at least `p` bytes? (the real decoder is the oracle:
+    /// the same file with the declared size lowered to `p` loads iff it does)
+    fn vtx_produces(&mut self, c: &Case, p: u64) -> bool {
+        let mut bytes = segs_bytes(&c.segs);
+        if bytes.len() < 16 {
+            return false;
+        }
+        let p14 = (p / 14) * 14;
+        bytes[12..16].copy_from_slice(&(p14 as u32).to_le_bytes());
+        bytes[9] = 50;
+        let mut c2 = c.clone();
+        c2.segs = vec![Seg::H(bytes)];
+        let t = self.timeout_for(c);
+        let o = self.worker.run(&c2, t);
+        o.class == "ok"
+    }
+
+    /// `inflate` parameter of the model for an SZX file whose compressed pages were not built by the
+    /// generator (real files, mutations): the real decompressor is asked, one isolated RAMP chunk at a
+    /// time, whether the stream fails, inflates to less than a page, or to a page and more
+    fn probe_inflate(&mut self, d: &[u8]) -> String {
+        let mut tbl = vec![];
+        let mut i = 8usize;
+        while i + 8 <= d.len() && tbl.len() < 16 {
+            let id: Vec<u8> = d[i..i + 4].iter().map(|b| b.to_ascii_uppercase()).collect();
+            let size = u32::from_le_bytes([d[i + 4], d[i + 5], d[i + 6], d[i + 7]]) as usize;
+            if size > d.len() - (i + 8) {
+                break;
+            }
+            if id == b"RAMP" && size >= 3 && d[i + 8] & 1 == 1 {
+                let stream = d[i + 11..i + 8 + size].to_vec();
+                let mut b = SzxB::new(2);
+                let mut data = vec![1u8, 0, 0];
+                data.extend_from_slice(&stream);
+                b.chunk(b"RAMP", size as u32, vec![Seg::H(data)]);
+                let probe = b.finish(Case::new("szx").machine(true, false, 0));
+                let o = self.worker.run(&probe, self.timeout);
+                let res = match o.class.as_str() {
+                    "ok" => "4000",
+                    "err" => "x",
+                    _ => "0",
+                };
+                tbl.push(format!("{:x}:{}", i + 11, res));
+            }
+            i += 8 + size;
+        }
+        if tbl.is_empty() {
+            "-".into()
+        } else {
+            tbl.join(",")
+        }
+    }
+
+    fn eval(&mut self, c0: &Case) -> Eval {
+        let mut patched;
+        let mut c = c0;
+        if c0.loader == "szx" && c0.extra == "-" && c0.len() <= 70000 {
+            let t = self.probe_inflate(&segs_bytes(&c0.segs));
+            if t != "-" {
+                patched = c0.clone();
+                patched.extra = t;
+                c = &patched;
+            }
+        }
+        let t = self.timeout_for(c);
+        let obs = self.worker.run(c, t);
+        let loader = inner_loader(c).to_string();
+        let req = model_request(c, self.fix, &obs);
+        let pred = match &req {
+            Some(r) => {
+                let a = self.model.ask(r);
+                if a == "bad-op" || a == "unimplemented" {
+                    panic!("driver rejected: {}", &r[..r.len().min(300)]);
+                }
+                parse_pred(c, &a)
+            }
+            None => Pred { class: obs.class.clone(), detail: "-".into(), ..Default::default() },
+        };
+        let model_class = if pred.alloc > CAP { "huge".to_string() } else { pred.class.clone() };
+        let acceptable = obs.class == "ok" || obs.class == "err";
+        // what an external decompressor legitimately adds to the allocation bound
+        let len = c.len();
+        let extra: u64 = match c.loader.as_str() {
+            "vtx" => {
+                let bytes = segs_bytes(&c.segs);
+                let claim = vtx_claim(&bytes);
+                if obs.class == "ok" {
+                    2 * claim + 2 * VTX_CHUNK as u64
+                } else if obs.detail == "vtxDecompress" && obs.alloc > len + 65536 + 2 * VTX_CHUNK {
+                    let p = ((obs.alloc - len - 65536 - 2 * VTX_CHUNK) / 2) as u64;
+                    if self.vtx_produces(c, p) {
+                        2 * claim + 2 * VTX_CHUNK as u64
+                    } else {
+                        2 * VTX_CHUNK as u64
+                    }
+                } else {
+                    2 * VTX_CHUNK as u64
+                }
+            }
+            l if l.starts_with("gz:") => {
+                // read_to_end doubles its buffer while flate2 delivers: twice the decompressed length;
+                // when the container turns out damaged the delivered part is unknown: deflate's maximal
+                // expansion (1032:1) bounds it
+                match obs.extra.strip_prefix("gz=") {
+                    Some(h) if h != "err" && h != "panic" => 2 * (h.len() / 2) as u64 + 65536,
+                    _ => 2 * 1032 * len as u64 + 65536,
+                }
+            }
+            _ => 0,
+        };
+        let verdict = self.model.ask(&format!(
+            "judge {:x} {:x} {} {:x}",
+            len,
+            extra,
+            if acceptable { 1 } else { 0 },
+            obs.alloc
+        ));
+        let alloc_site = match loader.as_str() {
+            "szx" => "szxAlloc",
+            "vtx" => "vtxAlloc",
+            _ => "alloc",
+        };
+        let impl_s = format!("{} {} (largest request {} bytes, then frames: {})", obs.class, obs.detail, obs.alloc, obs.post);
+        let finding = if !acceptable {
+            let tag = if obs.class == "huge" {
+                if model_class == "huge" { alloc_site.to_string() } else { format!("unpredicted-alloc:{}", alloc_site) }
+            } else if obs.class == model_class && SITES.contains(&pred.detail.as_str()) {
+                pred.detail.clone()
+            } else if obs.class == "hang" && model_class == "hang" && loader == "vtx" {
+                "vtxSpin".to_string()
+            } else if obs.class == "hang" {
+                "unpredicted:hang".to_string()
+            } else {
+                format!("unpredicted:{}:{}", obs.class, obs.detail)
+            };
+            Some(Finding {
+                kind: Kind::SpecViolated,
+                key: format!("C15/{}/{}", loader, tag),
+                what: format!("load outcome is {} ({}), the property allows only Ok or Err; model predicted {} {}", obs.class, obs.detail, model_class, pred.detail),
+                implementation: impl_s,
+                expected: "ok or err".into(),
+            })
+        } else if verdict == "badAlloc" {
+            let tag = if pred.alloc > len + 65536 + extra as usize { alloc_site.to_string() } else { format!("unpredicted-alloc:{}", alloc_site) };
+            Some(Finding {
+                kind: Kind::SpecViolated,
+                key: format!("C15/{}/{}", loader, tag),
+                what: format!("a single allocation of {} bytes was requested while loading {} bytes (bound: input + {} + 65536); model predicted {}", obs.alloc, len, extra, pred.alloc),
+                implementation: impl_s,
+                expected: format!("largest request <= {}", len as u64 + extra + 65536),
+            })
+        } else if obs.post.starts_with("panic") || obs.post.starts_with("hang") {
+            Some(Finding {
+                kind: Kind::SpecViolated,
+                key: format!("C15/{}/post:{}", loader, obs.post),
+                what: format!("after the load returned {} the emulator did not survive further frames: {}", obs.class, obs.post),
+                implementation: impl_s,
+                expected: "frames after the load run without panic".into(),
+            })
+        } else if verdict != "ok" {
+            Some(Finding {
+                kind: Kind::ModelMismatch,
+                key: format!("C15/{}/judge:{}", loader, verdict),
+                what: format!("spec verdict {}", verdict),
+                implementation: impl_s,
+                expected: "ok".into(),
+            })
+        } else if obs.class != model_class && req.is_some() {
+            Some(Finding {
+                kind: Kind::ModelMismatch,
+                key: format!("C15/{}/class:{}-vs-model:{}", loader, obs.class, model_class),
+                what: format!("real outcome class {} ({}) but the Lean model predicts {} ({})", obs.class, obs.detail, model_class, pred.detail),
+                implementation: impl_s,
+                expected: format!("{} {}", model_class, pred.detail),
+            })
+        } else {
+            self.compare_values(c, &obs, &pred)
+        };
+        Eval { obs, pred, finding }
+    }
+
+    /// tape operations: results and values must agree one by one
+    fn compare_values(&mut self, c: &Case, obs: &Obs, pred: &Pred) -> Option<Finding> {
+        let loader = inner_loader(c);
+        let mism = |i: usize, r: &str, m: &str| Finding {
+            kind: Kind::ModelMismatch,
+            key: format!("C15/{}/op-result", loader),
+            what: format!("tape operation #{}: real {} but the Lean model says {}", i, r, m),
+            implementation: r.into(),
+            expected: m.into(),
+        };
+        if loader == "tapc" {
+            let real: Vec<&str> = obs.extra.strip_prefix("ops=").unwrap_or("").split(',').collect();
+            for (i, (r, m)) in real.iter().zip(pred.ops.iter()).enumerate() {
+                let rc = r.split(':').next().unwrap_or("");
+                let same = if rc == "err" { m.starts_with("err") } else { *r == m.as_str() };
+                if !same {
+                    return Some(mism(i, r, m));
+                }
+            }
+            if real.len() != pred.ops.len() {
+                return Some(mism(real.len().min(pred.ops.len()), "count", "count"));
+            }
+        } else if loader == "tap" && obs.extra.starts_with("fl=") && obs.extra != "fl=-" {
+            let real: Vec<&str> = obs.extra[3..].split(',').collect();
+            for (i, (r, m)) in real.iter().zip(pred.ops.iter()).enumerate() {
+                // real ok:<de>:<ix>   model ok:<de>:<ix>:<flags|->
+                let same = if r.starts_with("ok") {
+                    let rp: Vec<&str> = r.split(':').collect();
+                    let mp: Vec<&str> = m.split(':').collect();
+                    mp.len() >= 3 && rp.len() >= 3 && rp[0] == mp[0] && rp[1] == mp[1] && rp[2] == mp[2]
+                } else {
+                    r.split(':').next() == m.split(':').next()
+                };
+                if !same {
+                    return Some(mism(i, r, m));
+                }
+            }
+        }
+        None
+    }
+}
+
+// ------------------------------------------------------------------------------------------------
+// file builders
+
+fn adler32_fill(n: usize, b: u8) -> u32 {
+    let (mut a, mut s) = (1u32, 0u32);
+    for _ in 0..n {
+        a = (a + b as u32) % 65521;
+        s = (s + a) % 65521;
+    }
+    (s << 16) | a
+}
+
+/// zlib stream of `n` bytes of value `b` made of stored (uncompressed) deflate blocks
+fn zlib_stored(n: usize, b: u8) -> Vec<Seg> {
+    let mut v = vec![Seg::H(vec![0x78, 0x01])];
+    let mut left = n;
+    loop {
+        let k = left.min(65535);
+        let last = left == k;
+        v.push(Seg::H(vec![
+            if last { 1 } else { 0 },
+            (k & 0xFF) as u8,
+            (k >> 8) as u8,
+            (!k & 0xFF) as u8,
+            ((!k >> 8) & 0xFF) as u8,
+        ]));
+        if k > 0 {
+            v.push(Seg::Z(k, b));
+        }
+        left -= k;
+        if last {
+            break;
+        }
+    }
+    v.push(Seg::H(adler32_fill(n, b).to_be_bytes().to_vec()));
+    v
+}
+
+/// merges adjacent literal segments (keeps one chunk = few segments for the shrinker)
+fn merge(segs: Vec<Seg>) -> Vec<Seg> {
+    let mut out: Vec<Seg> = vec![];
+    for s in segs {
+        match (out.last_mut(), s) {
+            (Some(Seg::H(a)), Seg::H(b)) => a.extend_from_slice(&b),
+            (_, Seg::Z(0, _)) => {}
+            (_, s) => out.push(s),
+        }
+    }
+    out
+}
+
+struct SzxB {
+    segs: Vec<Seg>,
+    inflate: Vec<String>,
+    off: usize,
+}
+
+impl SzxB {
+    fn new(mid: u8) -> SzxB {
+        SzxB { segs: vec![Seg::H(vec![b'Z', b'X', b'S', b'T', 1, 4, mid, 0])], inflate: vec![], off: 8 }
+    }
+    /// one chunk: id, declared size, data actually present; every chunk starts a new segment
+    fn chunk(&mut self, id: &[u8; 4], size: u32, data: Vec<Seg>) {
+        let mut h = id.to_vec();
+        h.extend_from_slice(&size.to_le_bytes());
+        let mut all = vec![Seg::H(h)];
+        all.extend(data);
+        let all = merge(all);
+        self.off += segs_len(&all);
+        self.segs.extend(all);
+    }
+    fn data_off(&self) -> usize {
+        self.off + 8
+    }
+    fn finish(self, mut c: Case) -> Case {
+        c.segs = self.segs;
+        c.extra = if self.inflate.is_empty() { "-".into() } else { self.inflate.join(",") };
+        c
+    }
+}
+
+fn sna_segs(hdr: &[u8], len: usize, ext: [u8; 4], fill: u8) -> Vec<Seg> {
+    let mut v = vec![];
+    let h = &hdr[..hdr.len().min(len)];
+    v.push(Seg::H(h.to_vec()));
+    let mut at = h.len();
+    if len > at {
+        let k = (len - at).min(49179 - at.min(49179));
+        if k > 0 {
+            v.push(Seg::Z(k, fill));
+            at += k;
+        }
+    }
+    if len > at {
+        let k = (len - at).min(4);
+        v.push(Seg::H(ext[..k].to_vec()));
+        at += k;
+    }
+    if len > at {
+        v.push(Seg::Z(len - at, fill));
+    }
+    v
+}
+
+fn vtx_header(magic: &[u8; 2], stereo: u8, pf: u8, claim: u32) -> Vec<u8> {
+    let mut h = magic.to_vec();
+    h.push(stereo);
+    h.extend_from_slice(&0u16.to_le_bytes());
+    h.extend_from_slice(&1773400u32.to_le_bytes());
+    h.push(pf);
+    h.extend_from_slice(&1999u16.to_le_bytes());
+    h.extend_from_slice(&claim.to_le_bytes());
+    h
+}
+
+fn szx_one(mid: u8, id: &[u8; 4], size: u32, data: Vec<Seg>) -> SzxB {
+    let mut b = SzxB::new(mid);
+    b.chunk(id, size, data);
+    b
+}
+
+/// minimal failing input per site (used to find out which repairs the tree under test contains,
+/// and as the regression corpus that is run first)
+fn witnesses() -> Vec<(&'static str, Case)> {
+    let mut w = vec![];
+    let mut hdr = [0u8; 27];
+    hdr[25] = 3;
+    let mut c = Case::new("sna");
+    c.segs = sna_segs(&hdr, 49179, [0; 4], 0);
+    w.push(("snaIm", c));
+    let mut c = Case::new("sna");
+    c.segs = sna_segs(&[0u8; 27], 49183, [0; 4], 0);
+    w.push(("snaPage", c));
+    let szx = |b: SzxB, m128: bool, ay: bool| {
+        let mut c = Case::new("szx").machine(m128, false, 0);
+        c.ay = ay;
+        b.finish(c)
+    };
+    w.push(("szxIdUtf8", szx(szx_one(1, &[0xFF, 0xFF, 0xFF, 0xFF], 0, vec![]), false, false)));
+    w.push(("szxAlloc", szx(szx_one(1, b"ABCD", 0x0800_0000, vec![]), false, false)));
+    w.push(("szxCrtrShort", szx(szx_one(1, b"CRTR", 5, vec![Seg::Z(5, 0x41)]), false, false)));
+    w.push(("szxCrtrUtf8", szx(szx_one(1, b"CRTR", 37, vec![Seg::H(vec![0xFF]), Seg::Z(36, 0x41)]), false, false)));
+    w.push(("szxZ80rShort", szx(szx_one(1, b"Z80R", 10, vec![Seg::Z(10, 0)]), false, false)));
+    w.push(("szxZ80rIm", szx(szx_one(1, b"Z80R", 37, vec![Seg::Z(28, 0), Seg::H(vec![3]), Seg::Z(8, 0)]), false, false)));
+    w.push(("szxSpcrShort", szx(szx_one(1, b"SPCR", 2, vec![Seg::Z(2, 0)]), false, false)));
+    w.push(("szxSpcrBorder", szx(szx_one(1, b"SPCR", 8, vec![Seg::H(vec![8]), Seg::Z(7, 0)]), false, false)));
+    w.push(("szxAyShort", szx(szx_one(2, b"AY\0\0", 5, vec![Seg::Z(5, 0)]), true, true)));
+    w.push(("szxKeybShort", szx(szx_one(1, b"KEYB", 2, vec![Seg::Z(2, 0)]), false, false)));
+    w.push(("szxAmxmShort", szx(szx_one(1, b"AMXM", 0, vec![]), false, false)));
+    w.push(("szxRampShort", szx(szx_one(1, b"RAMP", 1, vec![Seg::Z(1, 0)]), false, false)));
+    w.push(("szxRampPage", szx(szx_one(1, b"RAMP", 16387, vec![Seg::H(vec![0, 0, 9]), Seg::Z(16384, 0)]), false, false)));
+    w.push(("szxRampData", szx(szx_one(1, b"RAMP", 10, vec![Seg::H(vec![0, 0, 5]), Seg::Z(7, 0)]), false, false)));
+    {
+        let z = zlib_stored(100, 0x55);
+        let zl = segs_len(&z);
+        let mut b = SzxB::new(1);
+        b.inflate.push(format!("{:x}:{:x}", b.data_off() + 3, 100));
+        let mut d = vec![Seg::H(vec![1, 0, 5])];
+        d.extend(z);
+        b.chunk(b"RAMP", (3 + zl) as u32, d);
+        w.push(("szxRampInflated", szx(b, false, false)));
+    }
+    {
+        // not a load failure but what a load leaves behind: the frame clock (dwCyclesStart) moved back
+        // behind the position the screen renderer has already processed
+        let z80r = |cycles: u32| {
+            let mut d = vec![0u8; 37];
+            d[28] = 1;
+            d[29..33].copy_from_slice(&cycles.to_le_bytes());
+            Seg::H(d)
+        };
+        let mut b = SzxB::new(1);
+        b.chunk(b"Z80R", 37, vec![z80r(14400)]);
+        b.chunk(b"SPCR", 8, vec![Seg::Z(8, 0)]);
+        b.chunk(b"Z80R", 37, vec![z80r(14350)]);
+        w.push(("post-frames", szx(b, false, false)));
+    }
+    let vtx = |segs: Vec<Seg>, sc: Script| {
+        let mut c = Case::new("vtx");
+        c.sc = sc;
+        c.segs = merge(segs);
+        c
+    };
+    let std_reader = Script { eof_zero: true, ..Default::default() };
+    w.push(("vtxSpin", vtx(vec![Seg::H(vtx_header(b"ay", 1, 50, 0)), Seg::H(b"abc".to_vec())], std_reader)));
+    w.push((
+        "vtxScan",
+        vtx(
+            vec![Seg::H(vtx_header(b"ay", 1, 50, 0)), Seg::Z(15, b'a'), Seg::Z(4, b'b'), Seg::H(vec![0])],
+            Script { chunk: 3, eof_zero: true, ..Default::default() },
+        ),
+    ));
+    w.push(("vtxAlloc", vtx(vec![Seg::H(vtx_header(b"ay", 1, 50, 134217720)), Seg::Z(5, 0)], std_reader)));
+    w.push(("vtxPlayerFreq", vtx(vec![Seg::H(vtx_header(b"ay", 1, 0, 0)), Seg::Z(5, 0)], std_reader)));
+    w
+}
+
+// ------------------------------------------------------------------------------------------------
+// generators
+
+fn gen_script(r: &mut Rng, std_reader: bool) -> Script {
+    let mut s = Script { eof_zero: if std_reader { !r.chance(1, 6) } else { r.chance(1, 3) }, ..Default::default() };
+    match r.below(10) {
+        0..=4 => {}
+        5 | 6 => s.chunk = *r.pick(&[1usize, 2, 3, 7, 100, 255, 256, 257, 4096, 16383, 16384, 16385]),
+        7 => s.fail_read = Some(r.below(14) as usize),
+        8 => s.fail_seek = Some(r.below(9) as usize),
+        _ => {
+            s.chunk = *r.pick(&[1usize, 3, 128, 5000]);
+            s.fail_read = Some(r.below(60) as usize);
+        }
+    }
+    s
+}
+
+fn gen_machine(r: &mut Rng, c: Case) -> Case {
+    let m128 = r.bool();
+    let mut c = c.machine(m128, r.chance(1, 4), r.below(8) as u8);
+    c.ay = r.chance(1, 3);
+    c
+}
+
+const SNA_LENS: [usize; 22] = [
+    0, 1, 26, 27, 28, 49178, 49179, 49180, 49182, 49183, 49184, 65563, 131102, 131103, 131104, 147486, 147487,
+    147488, 163840, 98331, 49179, 131103,
+];
+
+fn gen_sna(r: &mut Rng) -> Case {
+    let mut hdr = r.bytes(27);
+    hdr[25] = match r.below(8) {
+        0 => 3,
+        1 => 0xFF,
+        2 => 7,
+        3 => r.u8(),
+        _ => r.below(3) as u8,
+    };
+    let len = if r.chance(1, 8) { r.below(163_841) as usize } else { *r.pick(&SNA_LENS) };
+    let ext = [r.u8(), r.u8(), if r.chance(1, 2) { r.below(8) as u8 } else { r.u8() }, 0];
+    let mut c = gen_machine(r, Case::new("sna"));
+    c.segs = sna_segs(&hdr, len, ext, r.u8());
+    c.sc = gen_script(r, false);
+    c
+}
+
+const IDS: [&[u8; 4]; 7] = [b"CRTR", b"Z80R", b"SPCR", b"AY\0\0", b"KEYB", b"AMXM", b"RAMP"];
+const MIN_LEN: [usize; 7] = [37, 37, 8, 18, 5, 7, 16387];
+
+fn gen_szx_chunk(r: &mut Rng, b: &mut SzxB) {
+    let k = r.below(9) as usize;
+    if k >= 7 {
+        // unknown or malformed id
+        let id: [u8; 4] = if r.chance(1, 3) {
+            [r.u8(), r.u8(), r.u8(), r.u8()]
+        } else if r.chance(1, 2) {
+            [0xC3, 0xA9, b'x', b'y']
+        } else {
+            *b"JOY\0"
+        };
+        let n = r.below(40) as usize;
+        b.chunk(&id, n as u32, vec![Seg::H(r.bytes(n))]);
+        return;
+    }
+    let mut id = *IDS[k];
+    if r.chance(1, 6) {
+        for ch in id.iter_mut() {
+            if r.bool() {
+                *ch = ch.to_ascii_lowercase();
+            }
+        }
+    }
+    let min = MIN_LEN[k];
+    // RAMP: page, flags, payload
+    if k == 6 {
+        let page = match r.below(8) {
+            0 => 8,
+            1 => 9,
+            2 => 255,
+            3 => 3,
+            _ => r.below(8) as u8,
+        };
+        match r.below(10) {
+            0..=3 => {
+                let n = *r.pick(&[16384usize, 16384, 16384, 16385, 16383, 20000, 0, 1]);
+                b.chunk(&id, (3 + n) as u32, vec![Seg::H(vec![0, 0, page]), Seg::Z(n, r.u8())]);
+            }
+            4..=7 => {
+                let n = *r.pick(&[16384usize, 16384, 16384, 16383, 16385, 0, 100, 65535, 65536, 70000]);
+                let mut z = zlib_stored(n, r.u8());
+                let res = if r.chance(1, 6) {
+                    // corrupt: break the header or the checksum, or cut the stream
+                    match r.below(3) {
+                        0 => z[0] = Seg::H(vec![0x00, 0x00]),
+                        1 => {
+                            let l = z.len() - 1;
+                            z[l] = Seg::H(vec![1, 2, 3, 4]);
+                        }
+                        _ => {
+                            z.pop();
+                            z.pop();
+                        }
+                    }
+                    "x".to_string()
+                } else if n > 65535 {
+                    "x".to_string()
+                } else {
+                    format!("{:x}", n)
+                };
+                let zl = segs_len(&z);
+                b.inflate.push(format!("{:x}:{}", b.data_off() + 3, res));
+                let mut d = vec![Seg::H(vec![1, 0, page])];
+                d.extend(z);
+                b.chunk(&id, (3 + zl) as u32, d);
+            }
+            _ => {
+                let n = r.below(3) as usize;
+                b.chunk(&id, n as u32, vec![Seg::H(r.bytes(n))]);
+            }
+        }
+        return;
+    }
+    let mode = r.below(12);
+    let n = match mode {
+        0 => min - 1,
+        1 => r.below(min as u64) as usize,
+        2 => 0,
+        3 => min + 1 + r.below(20) as usize,
+        _ => min,
+    };
+    let mut d = r.bytes(n);
+    // keep the value fields valid unless this chunk is meant to break them
+    let break_field = mode == 4;
+    match k {
+        0 => {
+            for x in d.iter_mut().take(33) {
+                *x = 0x20 + (*x % 0x5F);
+            }
+            if break_field && n > 0 {
+                d[r.below(n.min(33) as u64) as usize] = 0xFF;
+            }
+        }
+        1 => {
+            if n > 28 {
+                d[28] = if break_field { 3 + r.below(253) as u8 } else { r.below(3) as u8 };
+            }
+            if n > 32 && !r.chance(1, 10) {
+                // dwCyclesStart inside a frame most of the time
+                let t = (r.below(69888) as u32).to_le_bytes();
+                d[29..33].copy_from_slice(&t);
+            }
+        }
+        2 => {
+            if n > 0 {
+                d[0] = if break_field { 8 + r.below(248) as u8 } else { r.below(8) as u8 };
+            }
+        }
+        _ => {}
+    }
+    // the declared size may lie
+    let size = match r.below(40) {
+        0 => 0xFFFF_FFFF,
+        1 => 0x7FFF_FFFF,
+        2 => n as u32 + 1,
+        3 => 0x0010_0000,
+        4 => (n as u32).saturating_sub(1),
+        _ => n as u32,
+    };
+    b.chunk(&id, size, vec![Seg::H(d)]);
+}
+
+fn gen_szx(r: &mut Rng) -> Case {
+    let mid = match r.below(10) {
+        0 => 0,
+        1..=4 => 1,
+        5..=8 => 2,
+        _ => *r.pick(&[3u8, 7, 255]),
+    };
+    let mut b = SzxB::new(mid);
+    if r.chance(1, 40) {
+        b.segs = vec![Seg::H(b"ZXSX\x01\x04\x01\x00".to_vec())];
+    }
+    if r.chance(1, 40) {
+        let k = r.below(8) as usize;
+        b.segs = vec![Seg::H(b"ZXST\x01\x04\x01\x00"[..k].to_vec())];
+        b.off = k;
+    }
+    let n = r.below(7);
+    for _ in 0..n {
+        gen_szx_chunk(r, &mut b);
+    }
+    if r.chance(1, 10) {
+        let k = r.below(8) as usize;
+        b.segs.push(Seg::H(r.bytes(k)));
+    }
+    let mut c = gen_machine(r, Case::new("szx"));
+    c.sc = if r.chance(1, 2) { Script { eof_zero: r.bool(), ..Default::default() } } else { gen_script(r, false) };
+    b.finish(c)
+}
+
+fn gen_scr(r: &mut Rng) -> Case {
+    let len = *r.pick(&[6912usize, 6912, 6912, 6911, 6913, 0, 1, 27, 49179, 13824]);
+    let mut c = gen_machine(r, Case::new("scr"));
+    c.segs = merge(vec![Seg::Z(len, r.u8())]);
+    c.sc = gen_script(r, false);
+    c
+}
+
+fn gen_rom(r: &mut Rng) -> Case {
+    let mut c = gen_machine(r, Case::new("rom"));
+    let n = r.below(4);
+    let page = |r: &mut Rng| {
+        let len = *r.pick(&[16384usize, 16384, 16384, 16383, 16385, 0, 100, 32768]);
+        merge(vec![Seg::Z(len, r.u8())])
+    };
+    if n == 0 {
+        c.extra = "none".into();
+    } else {
+        c.segs = page(r);
+        let rest: Vec<String> = (1..n).map(|_| segs_text(&page(r))).collect();
+        if !rest.is_empty() {
+            c.extra = rest.join("|");
+        }
+    }
+    c.sc = gen_script(r, false);
+    c
+}
+
+fn gen_tap_file(r: &mut Rng) -> Vec<Seg> {
+    let mut v = vec![];
+    let n = r.below(5);
+    for _ in 0..n {
+        let size = match r.below(12) {
+            0 => 0,
+            1 => 1,
+            2 => 2,
+            3 => 19,
+            4 => *r.pick(&[127usize, 128, 129, 255, 256, 257, 383, 384, 385]),
+            5 => 300 + r.below(1500) as usize,
+            6 if r.chance(1, 6) => 65535,
+            _ => 2 + r.below(40) as usize,
+        };
+        let declared = if r.chance(1, 12) { size + 1 + r.below(300) as usize } else { size };
+        let mut h = (declared.min(65535) as u16).to_le_bytes().to_vec();
+        if size <= 64 {
+            let mut d = r.bytes(size);
+            if size > 0 && r.chance(1, 2) {
+                d[0] = if r.bool() { 0 } else { 0xFF };
+            }
+            h.extend(d);
+            v.push(Seg::H(h));
+        } else {
+            h.push(if r.bool() { 0 } else { 0xFF });
+            v.push(Seg::H(h));
+            v.push(Seg::Z(size - 1, r.u8()));
+        }
+    }
+    if r.chance(1, 8) {
+        v.push(Seg::H(r.bytes(1)));
+    }
+    merge(v)
+}
+
+fn gen_fl(r: &mut Rng) -> String {
+    let f = *r.pick(&[0x01u8, 0x00, 0x41, 0x40, 0xFF]);
+    let a = *r.pick(&[0x00u8, 0xFF, 0x55]);
+    let de = *r.pick(&[0u16, 1, 2, 17, 18, 19, 126, 127, 128, 129, 255, 256, 300, 0xFFFF]);
+    // VERIFY (carry clear) compares with memory: keep it on the (all-zero, never written) ROM so that
+    // earlier LOAD requests of the same case cannot change what it sees
+    let ix = if f & 1 == 0 { *r.pick(&[0x0000u16, 0x1000, 0x3F00]) } else { *r.pick(&[0x4000u16, 0x8000, 0xFFF0, 0x0000]) };
+    format!("f{:x}:{:x}:{:x}:{:x}", f, a, de, ix)
+}
+
+fn gen_tap(r: &mut Rng) -> Case {
+    let mut c = gen_machine(r, Case::new("tap"));
+    c.m128 = false;
+    c.locked = true;
+    c.bank = 2;
+    c.segs = gen_tap_file(r);
+    let n = r.below(4);
+    let fl: Vec<String> = (0..n).map(|_| gen_fl(r)).collect();
+    if !fl.is_empty() {
+        c.extra = fl.join(";");
+    }
+    c.sc = gen_script(r, false);
+    c
+}
+
+fn gen_tapc(r: &mut Rng) -> Case {
+    let mut c = Case::new("tapc");
+    c.segs = gen_tap_file(r);
+    c.sc = gen_script(r, false);
+    let n = 1 + r.below(30);
+    let mut ops = vec![];
+    for _ in 0..n {
+        ops.push(match r.below(16) {
+            0 | 1 => "p".to_string(),
+            2 => "s".to_string(),
+            3 => "r".to_string(),
+            4 | 5 => "b".to_string(),
+            6..=8 => "y".to_string(),
+            9 => format!("c{:x}", *r.pick(&[0usize, 1, 100, 2168, 3_500_000, 10_000_000])),
+            10..=12 => format!("k{:x}:{:x}", *r.pick(&[2usize, 10, 200, 6460, 16140, 20000]), *r.pick(&[4000usize, 10_000_000])),
+            _ => {
+                let k = 1 + r.below(200);
+                (0..k).map(|_| "y").collect::<Vec<_>>().join(";")
+            }
+        });
+    }
+    c.extra = ops.join(";");
+    c
+}
+
+struct VtxParts {
+    tails: Vec<(u32, Vec<u8>)>,
+    files: Vec<Vec<u8>>,
+}
+
+fn load_vtx_parts(notes: &mut Vec<String>) -> VtxParts {
+    let mut p = VtxParts { tails: vec![], files: vec![] };
+    for name in ["csoon.vtx", "secret.vtx", "sil00.vtx", "spf21_00.vtx"] {
+        let path = format!(".cache/repo/vtx/src/test/{}", name);
+        match std::fs::read(&path) {
+            Ok(d) if d.len() > 16 => {
+                let claim = u32::from_le_bytes([d[12], d[13], d[14], d[15]]);
+                let mut nul = 0;
+                let mut i = 16;
+                while i < d.len() && nul < 5 {
+                    if d[i] == 0 {
+                        nul += 1;
+                    }
+                    i += 1;
+                }
+                if nul == 5 {
+                    p.tails.push((claim, d[i..].to_vec()));
+                }
+                p.files.push(d);
+            }
+            _ => notes.push(format!("real asset {} not found; synthetic VTX files only", path)),
+        }
+    }
+    p
+}
+
+fn gen_vtx(r: &mut Rng, parts: &VtxParts) -> Case {
+    let mut c = Case::new("vtx");
+    c.sc = gen_script(r, true);
+    let magic: [u8; 2] = match r.below(12) {
+        0 => [r.u8(), r.u8()],
+        1..=4 => *b"ym",
+        _ => *b"ay",
+    };
+    let stereo = if r.chance(1, 12) { 7 + r.below(249) as u8 } else { r.below(7) as u8 };
+    let pf = match r.below(12) {
+        0 => 0,
+        1 => 255,
+        2 => 1,
+        _ => 50,
+    };
+    let tail = if !parts.tails.is_empty() && r.chance(2, 3) { Some(r.pick(&parts.tails).clone()) } else { None };
+    let claim: u32 = match (r.below(16), &tail) {
+        (0, _) => 0xFFFF_FFFA,
+        (1, _) => 14 * (1 + r.below(20_000_000) as u32),
+        (2, _) => 13 + r.below(1000) as u32,
+        (3, _) => 0x7FFF_FFFE,
+        (4, Some((cl, _))) => cl + 14,
+        (5, Some((cl, _))) => cl.saturating_sub(14),
+        (6, _) => 14,
+        (_, Some((cl, _))) => *cl,
+        _ => 0,
+    };
+    let mut segs = vec![Seg::H(vtx_header(&magic, stereo, pf, claim))];
+    // strings block
+    let nstr = match r.below(10) {
+        0 => r.below(5) as usize,
+        1 => 6,
+        _ => 5,
+    };
+    for i in 0..nstr {
+        let n = match r.below(14) {
+            0 => 255,
+            1 => 256,
+            2 => 257,
+            3 => 600,
+            4 => *r.pick(&[250usize, 251, 252, 253, 254]),
+            5 => 0,
+            _ => r.below(24) as usize,
+        };
+        if n > 40 {
+            segs.push(Seg::Z(n, b'a' + (i as u8)));
+        } else {
+            segs.push(Seg::H((0..n).map(|_| 0x20 + (r.u8() % 0x5F)).collect()));
+        }
+        segs.push(Seg::H(vec![0]));
+    }
+    if nstr < 5 && r.bool() {
+        let n = r.below(300) as usize;
+        segs.push(Seg::Z(n, b'x'));
+    }
+    if let Some((_, t)) = tail {
+        let cut = if r.chance(1, 6) { r.below(t.len() as u64 + 1) as usize } else { t.len() };
+        let mut t = t[..cut].to_vec();
+        if r.chance(1, 10) && !t.is_empty() {
+            let i = r.below(t.len() as u64) as usize;
+            t[i] ^= 1 << r.below(8);
+        }
+        segs.push(Seg::H(t));
+    } else if r.chance(1, 3) {
+        let n = r.below(64) as usize;
+        segs.push(Seg::H(r.bytes(n)));
+    }
+    if r.chance(1, 30) {
+        let total = segs_len(&segs);
+        let cut = r.below(total as u64 + 1) as usize;
+        let b = segs_bytes(&segs);
+        segs = vec![Seg::H(b[..cut].to_vec())];
+    }
+    c.segs = merge(segs);
+    c
+}
+
+/// unstructured input for every loader
+fn gen_random(r: &mut Rng) -> Case {
+    let loader = *r.pick(&["sna", "szx", "scr", "tap", "tapc", "vtx", "rom"]);
+    let mut c = gen_machine(r, Case::new(loader));
+    let n = match r.below(6) {
+        0 => 0,
+        1 => r.below(16) as usize,
+        2 => r.below(4096) as usize,
+        _ => r.below(300) as usize,
+    };
+    let mut d = r.bytes(n);
+    if r.chance(1, 2) {
+        let pre: &[u8] = match loader {
+            "szx" => b"ZXST\x01\x04\x01\x00",
+            "vtx" => b"ay\x01",
+            _ => b"",
+        };
+        for (i, x) in pre.iter().enumerate() {
+            if i < d.len() {
+                d[i] = *x;
+            }
+        }
+    }
+    c.segs = merge(vec![Seg::H(d)]);
+    c.sc = gen_script(r, loader == "vtx");
+    match loader {
+        "tap" => {
+            c.m128 = false;
+            c.locked = true;
+            c.bank = 2;
+            c.extra = gen_fl(r);
+        }
+        "tapc" => c.extra = "p;k40:10000000;b;y;y;f".replace(";f", ";y"),
+        _ => {}
+    }
+    c
+}
+
+/// gzip container (stored deflate block) around `data`
+fn gzip_stored(data: &[u8]) -> Vec<u8> {
+    let mut v = vec![0x1F, 0x8B, 8, 0, 0, 0, 0, 0, 0, 0xFF];
+    let mut left = data;
+    loop {
+        let k = left.len().min(65535);
+        let last = left.len() == k;
+        v.push(if last { 1 } else { 0 });
+        v.extend_from_slice(&(k as u16).to_le_bytes());
+        v.extend_from_slice(&(!(k as u16)).to_le_bytes());
+        v.extend_from_slice(&left[..k]);
+        left = &left[k..];
+        if last {
+            break;
+        }
+    }
+    let mut crc = 0xFFFF_FFFFu32;
+    for b in data {
+        crc ^= *b as u32;
+        for _ in 0..8 {
+            crc = if crc & 1 != 0 { (crc >> 1) ^ 0xEDB8_8320 } else { crc >> 1 };
+        }
+    }
+    v.extend_from_slice(&(!crc).to_le_bytes());
+    v.extend_from_slice(&(data.len() as u32).to_le_bytes());
+    v
+}
+
+// ------------------------------------------------------------------------------------------------
+// shrinking and recording
+
+fn shrink(ctx: &mut Ctx, c: &Case, key: &str, budget: usize) -> Case {
+    let mut cur = c.clone();
+    let mut left = budget;
+    let same = |ctx: &mut Ctx, cand: &Case, left: &mut usize| -> bool {
+        if *left == 0 {
+            return false;
+        }
+        *left -= 1;
+        matches!(ctx.eval(cand).finding, Some(ref f) if f.key == key)
+    };
+    // plain script, default receiver
+    for step in 0..6 {
+        let mut cand = cur.clone();
+        match step {
+            0 => cand.sc = Script { eof_zero: cur.sc.eof_zero, ..Default::default() },
+            1 => cand.sc.fail_seek = None,
+            2 => cand.sc.fail_read = None,
+            3 => cand.ay = false,
+            4 => cand = cand.machine(false, true, 2),
+            // (the fast-load trap of the 128K machine needs ROM 1 paged in: tape cases stay on the 48K)
+            _ if !cur.loader.contains("tap") => cand = cand.machine(true, false, 0),
+            _ => {}
+        }
+        if cand != cur && same(ctx, &cand, &mut left) {
+            cur = cand;
+        }
+    }
+    // tape operations: drop from the end, then single ones
+    if cur.loader == "tapc" || cur.loader == "tap" {
+        let mut ops: Vec<String> = cur.extra.split(';').map(|s| s.to_string()).collect();
+        let mut i = ops.len();
+        while i > 0 && ops.len() > 1 {
+            i -= 1;
+            let mut o2 = ops.clone();
+            o2.remove(i);
+            let mut cand = cur.clone();
+            cand.extra = o2.join(";");
+            if same(ctx, &cand, &mut left) {
+                ops = o2;
+                cur = cand;
+            }
+        }
+    }
+    // drop whole segments (for SZX a segment group is a chunk), last first
+    let mut changed = true;
+    while changed && left > 0 {
+        changed = false;
+        let mut i = cur.segs.len();
+        while i > 0 {
+            i -= 1;
+            if cur.segs.len() <= 1 {
+                break;
+            }
+            let mut cand = cur.clone();
+            cand.segs.remove(i);
+            if same(ctx, &cand, &mut left) {
+                cur = cand;
+                changed = true;
+            }
+        }
+    }
+    // shorten / blank what is left: shortest prefix of every segment that still fails the same way
+    for i in 0..cur.segs.len() {
+        let full = match &cur.segs[i] {
+            Seg::H(b) => b.len(),
+            Seg::Z(n, _) => *n,
+        };
+        let (mut lo, mut hi) = (1usize, full);
+        while lo < hi && left > 0 {
+            let mid = (lo + hi) / 2;
+            let mut cand = cur.clone();
+            cand.segs[i] = match &cur.segs[i] {
+                Seg::H(b) => Seg::H(b[..mid].to_vec()),
+                Seg::Z(_, v) => Seg::Z(mid, *v),
+            };
+            if same(ctx, &cand, &mut left) {
+                hi = mid;
+                cur = cand;
+            } else {
+                lo = mid + 1;
+            }
+        }
+        if let Seg::H(b) = &cur.segs[i] {
+            if b.iter().any(|x| *x != 0) && b.len() > 8 {
+                let mut cand = cur.clone();
+                let mut z = b.clone();
+                for x in z.iter_mut().skip(8) {
+                    *x = 0;
+                }
+                cand.segs[i] = Seg::H(z);
+                if same(ctx, &cand, &mut left) {
+                    cur = cand;
+                }
+            }
+        }
+    }
+    cur
+}
+
+fn record(ctx: &mut Ctx, rep: &mut Report, c: &Case, ev: &Eval) {
+    let f = match &ev.finding {
+        Some(f) => f.clone(),
+        None => return,
+    };
+    rep.count("findings_by_key", f.key.clone());
+    if rep.has_key(&f.key) {
+        rep.count("repeat_violations", f.key.clone());
+        return;
+    }
+    let budget = if ev.obs.class == "hang" { 10 } else { 80 };
+    let small = shrink(ctx, c, &f.key, budget);
+    let ev2 = ctx.eval(&small);
+    let f2 = match ev2.finding {
+        Some(ref g) if g.key == f.key => g.clone(),
+        _ => f.clone(),
+    };
+    let text = if matches!(ev2.finding, Some(ref g) if g.key == f.key) { small.text() } else { c.text() };
+    rep.violation(Violation {
+        kind: f2.kind,
+        key: f2.key.clone(),
+        what: f2.what.clone(),
+        correspondence: "corr.C15.outcome-class (Model.Loaders vs the load entry points of rustzx-core / vtx)".into(),
+        case: J::obj(vec![("text", J::s(text))]),
+        implementation: f2.implementation.clone(),
+        expected: f2.expected.clone(),
+    });
+}
+
+fn observe(rep: &mut Report, c: &Case, ev: &Eval) {
+    rep.eval();
+    let loader = c.loader.as_str();
+    rep.count("loader", loader);
+    rep.count("script", c.sc.class());
+    rep.count("outcome", format!("{}:{}", inner_loader(c), ev.obs.class));
+    if ev.obs.class == "err" {
+        rep.count("error_kind", format!("{}:{}", inner_loader(c), ev.obs.detail));
+        if ev.pred.class == "err" && ev.pred.detail != ev.obs.detail {
+            rep.count("error_kind_differs_from_model", format!("{}: real {} model {}", inner_loader(c), ev.obs.detail, ev.pred.detail));
+        }
+    }
+    if ev.obs.post != "ok" {
+        rep.count("frames_after_load", ev.obs.post.split(':').next().unwrap_or("").to_string());
+    }
+    let detail = if ev.obs.class == "panic" || ev.obs.class == "hang" { ev.pred.detail.clone() } else { ev.obs.detail.clone() };
+    rep.class(format!(
+        "{} {} {} -> {} {}",
+        loader,
+        if c.m128 { "128k" } else { "48k" },
+        c.sc.class(),
+        ev.obs.class,
+        detail
+    ));
+}
+
+fn run_case(ctx: &mut Ctx, rep: &mut Report, c: &Case) {
+    let ev = ctx.eval(c);
+    fold_case(ctx, rep, c, ev);
+}
+
+fn fold_case(ctx: &mut Ctx, rep: &mut Report, c: &Case, ev: Eval) {
+    observe(rep, c, &ev);
+    if rep.samples.len() < 3 && ev.finding.is_none() && c.len() < 400 {
+        rep.sample(J::obj(vec![
+            ("case", J::s(c.text())),
+            ("real", J::s(format!("{} {} alloc={} post={}", ev.obs.class, ev.obs.detail, ev.obs.alloc, ev.obs.post))),
+            ("model", J::s(format!("{} {} alloc={} steps={}", ev.pred.class, ev.pred.detail, ev.pred.alloc, ev.pred.steps))),
+        ]));
+    }
+    record(ctx, rep, c, &ev);
+}
+
+fn new_ctx(o: &Opts, fix: u32) -> Ctx {
+    Ctx {
+        worker: Worker::new(),
+        model: Model::spawn(&o.model, "C15"),
+        fix,
+        timeout: Duration::from_millis(4000),
+        vtx_timeout: Duration::from_millis(if o.thorough() { 1500 } else { 400 }),
+    }
+}
+
+/// Evaluates all queued cases on a pool of (worker process, model process) pairs in parallel, then
+/// folds the results into the report in queue order (so the run is deterministic for a seed).
+fn run_all(ctx: &mut Ctx, rep: &mut Report, o: &Opts, q: Vec<Case>) {
+    let threads = std::thread::available_parallelism().map(|n| n.get()).unwrap_or(4).clamp(2, 12);
+    let fix = ctx.fix;
+    let mut results: Vec<Option<Eval>> = (0..q.len()).map(|_| None).collect();
+    let mut started = 0u64;
+    let mut killed = 0u64;
+    let mut requests = 0u64;
+    std::thread::scope(|sc| {
+        let mut handles = vec![];
+        for t in 0..threads {
+            let qref = &q;
+            handles.push(sc.spawn(move || {
+                let mut cx = new_ctx(o, fix);
+                let mut out = vec![];
+                let mut i = t;
+                while i < qref.len() && HANGS.load(Ordering::Relaxed) <= HANGS_GIVE_UP {
+                    out.push((i, cx.eval(&qref[i])));
+                    i += threads;
+                }
+                (out, cx.worker.spawned, cx.worker.killed, cx.model.requests)
+            }));
+        }
+        for h in handles {
+            let (out, s, k, r) = h.join().expect("evaluation thread died");
+            started += s;
+            killed += k;
+            requests += r;
+            for (i, e) in out {
+                results[i] = Some(e);
+            }
+        }
+    });
+    let mut skipped = 0u64;
+    for (c, ev) in q.iter().zip(results.into_iter()) {
+        match ev {
+            Some(ev) => fold_case(ctx, rep, c, ev),
+            None => skipped += 1,
+        }
+    }
+    if skipped > 0 {
+        rep.notes.push(format!(
+            "{} cases were not run: the watchdog had already killed more than {} hanging workers",
+            skipped, HANGS_GIVE_UP
+        ));
+        rep.count("skipped", "after too many hangs");
+    }
+    rep.extra.push(("parallel_workers".into(), J::I(threads as i64)));
+    rep.extra.push(("worker_processes_started".into(), J::I((started + ctx.worker.spawned) as i64)));
+    rep.extra.push(("workers_killed_by_watchdog".into(), J::I((killed + ctx.worker.killed) as i64)));
+    rep.extra.push(("model_requests".into(), J::I((requests + ctx.model.requests) as i64)));
+}
+
+/// every position of an injected failure / several short-read sizes over one file
+fn fault_sweep(q: &mut Vec<Case>, base: &Case, reads: usize, seeks: usize, std_reader: bool) {
+    for eof_zero in [false, true] {
+        if std_reader && !eof_zero {
+            continue;
+        }
+        for i in 0..reads {
+            let mut c = base.clone();
+            c.sc = Script { fail_read: Some(i), eof_zero, ..Default::default() };
+            q.push(c);
+        }
+        for i in 0..seeks {
+            let mut c = base.clone();
+            c.sc = Script { fail_seek: Some(i), eof_zero, ..Default::default() };
+            q.push(c);
+        }
+        for chunk in [1usize, 2, 3, 5, 8, 13, 100, 255, 256, 257, 16384] {
+            let mut c = base.clone();
+            c.sc = Script { chunk, eof_zero, ..Default::default() };
+            q.push(c);
+            let mut c = base.clone();
+            c.sc = Script { chunk, fail_read: Some(reads + chunk % 7), eof_zero, ..Default::default() };
+            q.push(c);
+        }
+    }
+}
+
+fn read_gz(path: &str) -> Option<Vec<u8>> {
+    let raw = std::fs::read(path).ok()?;
+    catch_unwind(|| rustzx_utils::io::GzipAsset::new(&raw[..]).ok().map(|a| a.into_vec())).ok().flatten()
+}
+
+pub fn run(o: &Opts) -> Report {
+    if o.replay.as_deref() == Some("@worker") {
+        worker_main();
+    }
     let mut rep = Report::new("C15");
-    rep.notes.push("not built yet".into());
+    rep.rule = "every case = (loader, receiving machine incl. paging lock/bank/AY, fault script of the asset, bytes) runs \
+on the real entry point inside a worker process (catch_unwind; watchdog = the parent kills a silent worker; counting global \
+allocator, requests > 1 GiB abort the worker) followed by further frames, and on the Lean model; compared: outcome class \
+(ok/err/panic/hang/huge allocation), for tapes every operation result and value; the Lean spec judges class and largest \
+request. Inputs: minimal witness per failure site, structure-aware SNA/SZX/SCR/ROM/TAP/VTX files (length and value fields at \
+0/1/min-1/min/min+1/max, lying size fields, unknown/lower-case/non-UTF-8 ids, stored-deflate RAMP pages), real files of the \
+repo and mutations of them, gzip-wrapped files, unstructured random bytes, and fault sweeps (a failing read/seek at every \
+index, short reads of many sizes, EOF as Err or Ok(0)); distinct = (loader, machine, script class, outcome class, error \
+kind or failure site)"
+        .into();
+    let mut ctx = new_ctx(o, 0);
+    // which repairs does the tree under test contain? (one minimal witness per site)
+    let wit = witnesses();
+    let mut fixed_sites = vec![];
+    for (site, c) in &wit {
+        let t = ctx.timeout_for(c);
+        let obs = ctx.worker.run(c, t);
+        let fine = (obs.class == "ok" || obs.class == "err")
+            && obs.alloc <= c.len() + 65536 + 2 * VTX_CHUNK
+            && !obs.post.starts_with("panic");
+        if fine {
+            ctx.fix |= site_bit(site);
+            if *site == "vtxScan" {
+                ctx.fix |= site_bit("vtxStrings");
+            }
+            fixed_sites.push(site.to_string());
+        }
+    }
+    {
+        // behaviour switch of the SNA repair: is a 48K snapshot refused by the 128K machine as well?
+        let mut c = Case::new("sna").machine(true, false, 0);
+        c.segs = sna_segs(&[1u8; 27], 49179, [0; 4], 0);
+        let t = ctx.timeout_for(&c);
+        if ctx.worker.run(&c, t).class == "err" {
+            ctx.fix |= site_bit("snaRev");
+            fixed_sites.push("snaRev".to_string());
+        }
+    }
+    rep.extra.push(("repaired_sites_detected".into(), J::A(fixed_sites.iter().map(|s| J::s(s.clone())).collect())));
+    rep.extra.push(("fix_mask".into(), J::s(format!("{:x}", ctx.fix))));
+
+    if let Some(text) = &o.replay {
+        match Case::parse(text) {
+            Some(c) => {
+                rep.sample(J::s(c.text()));
+                run_case(&mut ctx, &mut rep, &c);
+            }
+            None => rep.notes.push("replay case could not be parsed".into()),
+        }
+        return rep;
+    }
+
+    let mut q: Vec<Case> = vec![];
+    // 1. corpus: the witnesses themselves
+    for (_, c) in &wit {
+        q.push(c.clone());
+    }
+
+    let mut notes = vec![];
+    let parts = load_vtx_parts(&mut notes);
+    let mut rng = Rng::new(o.seed ^ 0xC15);
+
+    // 2. boundary sweep SNA: lengths x machines x IM
+    for len in SNA_LENS.iter().take(20) {
+        for m128 in [false, true] {
+            for im in [0u8, 2, 3] {
+                let mut hdr = [0u8; 27];
+                hdr[25] = im;
+                for bank in [0u8, 2, 5] {
+                    let mut c = Case::new("sna").machine(m128, bank == 5, 1);
+                    c.segs = sna_segs(&hdr, *len, [0, 0x80, bank, 0], 0xAA);
+                    q.push(c);
+                }
+            }
+        }
+    }
+    // 3. fault sweeps over valid files
+    {
+        let mut c = Case::new("sna");
+        c.segs = sna_segs(&[1u8; 27], 49179, [0; 4], 1);
+        fault_sweep(&mut q, &c, 6, 4, false);
+        let mut c = Case::new("sna").machine(true, false, 0);
+        c.segs = sna_segs(&[1u8; 27], 131103, [0, 0x80, 3, 0], 1);
+        fault_sweep(&mut q, &c, 12, 7, false);
+        let mut b = SzxB::new(2);
+        b.chunk(b"CRTR", 37, vec![Seg::Z(37, 0x41)]);
+        b.chunk(b"Z80R", 37, vec![Seg::Z(37, 0)]);
+        b.chunk(b"SPCR", 8, vec![Seg::Z(8, 0)]);
+        b.chunk(b"RAMP", 16387, vec![Seg::H(vec![0, 0, 5]), Seg::Z(16384, 7)]);
+        b.chunk(b"KEYB", 5, vec![Seg::Z(5, 0)]);
+        let c = b.finish(Case::new("szx").machine(true, false, 0));
+        fault_sweep(&mut q, &c, 14, 14, false);
+        let mut c = Case::new("scr");
+        c.segs = vec![Seg::Z(6912, 0x38)];
+        fault_sweep(&mut q, &c, 3, 3, false);
+        let mut c = Case::new("rom").machine(true, false, 0);
+        c.segs = vec![Seg::Z(16384, 0)];
+        c.extra = "z4000x00".into();
+        fault_sweep(&mut q, &c, 3, 1, false);
+        let mut c = Case::new("tapc");
+        c.segs = merge(vec![Seg::H(vec![19, 0, 0]), Seg::Z(18, 3), Seg::H(vec![0x2C, 0x01, 0xFF]), Seg::Z(299, 9)]);
+        c.extra = "p;k3f10:989680;s;b;y;y;b;y;b;r;b".into();
+        fault_sweep(&mut q, &c, 10, 3, false);
+        let mut c = Case::new("tap");
+        c.segs = merge(vec![Seg::H(vec![19, 0, 0]), Seg::Z(18, 3), Seg::H(vec![0x2C, 0x01, 0xFF]), Seg::Z(299, 9)]);
+        c.extra = "f1:0:11:4000;f1:ff:12a:8000;f1:ff:1:8000".into();
+        fault_sweep(&mut q, &c, 8, 2, false);
+        if let Some(f) = parts.files.first() {
+            let mut c = Case::new("vtx");
+            c.segs = vec![Seg::H(f.clone())];
+            fault_sweep(&mut q, &c, 16, 4, true);
+        }
+    }
+    // 4. real files of the repository and mutations of them
+    {
+        let mut real: Vec<(String, Vec<u8>)> = vec![];
+        for (l, p) in [
+            ("sna", ".cache/repo/rustzx-core/src/emulator/snapshot/autoload/tape_48k.sna"),
+            ("sna", ".cache/repo/rustzx-core/src/emulator/snapshot/autoload/tape_128k.sna"),
+            ("szx", ".cache/repo/rustzx-test/test_data/nmi.szx"),
+            ("scr", ".cache/repo/rustzx-test/test_data/src/rustzx.scr"),
+        ] {
+            match std::fs::read(p) {
+                Ok(d) => real.push((l.into(), d)),
+                Err(_) => notes.push(format!("real asset {} not found", p)),
+            }
+        }
+        for (l, p) in [
+            ("sna", ".cache/repo/rustzx-test/test_data/sound.128k.sna.gz"),
+            ("sna", ".cache/repo/rustzx-test/test_data/keyboard.48k.sna.gz"),
+            ("tap", ".cache/repo/rustzx-test/test_data/simple_tape.tap.gz"),
+        ] {
+            match read_gz(p) {
+                Some(d) => real.push((l.into(), d)),
+                None => notes.push(format!("real asset {} not found", p)),
+            }
+        }
+        for f in &parts.files {
+            real.push(("vtx".into(), f.clone()));
+        }
+        // the repository's gzip-compressed assets through the real GzipAsset, intact and damaged
+        for (l, p) in [
+            ("gz:sna", ".cache/repo/rustzx-test/test_data/sound.128k.sna.gz"),
+            ("gz:sna", ".cache/repo/rustzx-test/test_data/mouse.48k.sna.gz"),
+            ("gz:tap", ".cache/repo/rustzx-test/test_data/simple_tape.tap.gz"),
+        ] {
+            if let Ok(raw) = std::fs::read(p) {
+                rep.count("real_files", l.to_string());
+                for k in 0..o.n(5, 100) {
+                    let mut d = raw.clone();
+                    if k > 0 {
+                        if rng.bool() {
+                            let cut = rng.below(d.len() as u64) as usize;
+                            d.truncate(cut);
+                        } else {
+                            let i = rng.below(d.len() as u64) as usize;
+                            d[i] ^= 1 << rng.below(8);
+                        }
+                    }
+                    let mut c = Case::new(l).machine(p.contains("128k"), false, 0);
+                    if l == "gz:tap" {
+                        c.extra = "f1:0:11:4000".into();
+                    }
+                    c.segs = vec![Seg::H(d)];
+                    q.push(c);
+                }
+            }
+        }
+        let per = o.n(6, 200);
+        for (l, d) in &real {
+            rep.count("real_files", l.clone());
+            for k in 0..=per {
+                let mut data = d.clone();
+                if k > 0 {
+                    // mutate: a few bytes in the structural prefix, or cut / extend
+                    match rng.below(4) {
+                        0 => {
+                            let cut = rng.below(data.len() as u64 + 1) as usize;
+                            data.truncate(cut);
+                        }
+                        1 => {
+                            let n = 1 + rng.below(64) as usize;
+                            data.extend(rng.bytes(n));
+                        }
+                        _ => {
+                            for _ in 0..1 + rng.below(3) {
+                                let span = data.len().min(if rng.bool() { 64 } else { data.len() });
+                                if span > 0 {
+                                    let i = rng.below(span as u64) as usize;
+                                    data[i] = rng.u8();
+                                }
+                            }
+                        }
+                    }
+                }
+                let m128 = if k == 0 { d.len() > 60000 } else { rng.bool() };
+                let mut c = Case::new(l).machine(m128, false, 0);
+                if l == "tap" {
+                    c = c.machine(false, true, 2);
+                    c.extra = "f1:0:11:4000;f1:ff:200:8000".into();
+                }
+                if l == "vtx" {
+                    c.sc.eof_zero = true;
+                }
+                c.segs = vec![Seg::H(data)];
+                q.push(c);
+            }
+        }
+        // gzip-wrapped: valid containers around generated files, and damaged containers
+        for k in 0..o.n(60, 3000) {
+            let inner = match k % 4 {
+                0 => gen_sna(&mut rng),
+                1 => gen_szx(&mut rng),
+                2 => gen_scr(&mut rng),
+                _ => gen_tap(&mut rng),
+            };
+            if inner.len() > 70000 && !o.thorough() {
+                continue;
+            }
+            let mut gzb = gzip_stored(&segs_bytes(&inner.segs));
+            match rng.below(8) {
+                0 => {
+                    let cut = rng.below(gzb.len() as u64) as usize;
+                    gzb.truncate(cut);
+                }
+                1 => {
+                    let i = rng.below(gzb.len() as u64) as usize;
+                    gzb[i] ^= 0x40;
+                }
+                _ => {}
+            }
+            let mut c = inner.clone();
+            c.loader = format!("gz:{}", inner.loader);
+            c.sc = Script::default();
+            c.segs = vec![Seg::H(gzb)];
+            if c.loader == "gz:szx" {
+                // inflate offsets refer to the decompressed file: unchanged
+            }
+            q.push(c);
+        }
+    }
+    // 5. structure-aware random files
+    let scale = |q: u64, t: u64| o.n(q, t);
+    for _ in 0..scale(3000, 300_000) {
+        let c = gen_sna(&mut rng);
+        q.push(c);
+    }
+    for _ in 0..scale(8000, 900_000) {
+        let c = gen_szx(&mut rng);
+        q.push(c);
+    }
+    for _ in 0..scale(300, 20_000) {
+        let c = gen_scr(&mut rng);
+        q.push(c);
+    }
+    for _ in 0..scale(300, 20_000) {
+        let c = gen_rom(&mut rng);
+        q.push(c);
+    }
+    for _ in 0..scale(700, 100_000) {
+        let c = gen_tap(&mut rng);
+        q.push(c);
+    }
+    for _ in 0..scale(1500, 200_000) {
+        let c = gen_tapc(&mut rng);
+        q.push(c);
+    }
+    for _ in 0..scale(3000, 300_000) {
+        let c = gen_vtx(&mut rng, &parts);
+        q.push(c);
+    }
+    for _ in 0..scale(3000, 200_000) {
+        let c = gen_random(&mut rng);
+        q.push(c);
+    }
+    rep.notes.extend(notes);
+    run_all(&mut ctx, &mut rep, o, q);
     rep
 }
